@@ -79,6 +79,16 @@ S1 = [
     "v = 0\n    with open('/dev/null') as fh:\n        v = {e}",
     "def inner() -> object:\n        return {e}\n    v = inner()",
     "v = lambda: {e}\n    v = v()",
+    # conditions stored in a variable, with the tested variable reassigned on some paths only before the stored condition is used
+    "ok = isinstance(x, int)\n    if c():\n        x = {e}\n    if ok:\n        v = x\n    else:\n        v = None",
+    "ok = x is not None\n    if c():\n        x = None\n    v = {e}\n    if ok:\n        v = x",
+    "ok = not x\n    v = {e}\n    while c():\n        x = v\n    if ok:\n        v = (x, 0)\n    else:\n        v = (x, 1)",
+    # sequence patterns with a star at each position against parameters of known length; guarded cases
+    "match x:\n        case [a, b, *r]:\n            v = (a, r)\n        case [a, *r]:\n            v = (a, r, {e})\n        case _:\n            v = {e}",
+    "match x:\n        case [*r, a]:\n            v = (r, a)\n        case _:\n            v = {e}",
+    "match x:\n        case [a, *r, b]:\n            v = (a, r, b)\n        case [*r]:\n            v = r\n        case _:\n            v = {e}",
+    "match x:\n        case None if c():\n            v = 0\n        case int() if c():\n            v = 1\n        case _:\n            v = x",
+    "match {e}:\n        case int() | str() if c():\n            v = 0\n        case _:\n            v = x",
 ]
 S2 = [
     "w = v\n    use(w)",
